@@ -99,7 +99,15 @@ Specials == << [filter |-> "batch", a |-> Arr(<<IntV(1)>>), args |-> <<Go("huge:
                [filter |-> "round", a |-> Num(96), args |-> <<Go("huge:1e18"), Str(S2B("ceil"))>>],
                [filter |-> "slice", a |-> Arr(<<IntV(1)>>), args |-> <<Go("huge:1e18"), Go("huge:-1e19")>>],
                [filter |-> "number_format", a |-> Num(96), args |-> <<Go("huge:1e18"), Str(S2B(","))>>] >>
-NSp == Len(Specials)
+(* whole templates of their own: a value nested a million levels deep built by loops and handed to json_encode; a struct whose
+   MarshalJSON is promoted from a nil embedded pointer *)
+DeepBody == <<SetS("x", ArrE(<<>>)),
+              ForS("", "i", Bin("..", IntE(1), IntE(1000)), NoE,
+                   <<ForS("", "j", Bin("..", IntE(1), IntE(1000)), NoE, <<SetS("x", ArrE(<<NameE("x")>>))>>, <<>>, FALSE)>>, <<>>, FALSE),
+              PrintS(Pipe(Pipe(NameE("x"), "json_encode", <<>>), "length", <<>>))>>
+SpecialBodies == << [filter |-> "json_encode", a |-> Null, args |-> <<>>, body |-> DeepBody],
+                    [filter |-> "json_encode", a |-> Go("embniltime"), args |-> <<>>, body |-> <<PrintS(Pipe(A, "json_encode", <<>>))>>] >>
+NSp == Len(Specials) + Len(SpecialBodies)
 Total == NOps + NFil
 (* every filter x every value with no argument and with every single argument; two-argument lists by a seeded stride *)
 NFil1 == NF * NO * (1 + NFA)
@@ -120,7 +128,8 @@ Vecc(j) ==
     IN [id |-> "C02-" \o ToString(j), fam |-> "ops", k |-> "render", env |-> "core", tpls |-> tpls, entry |-> "t", ctx |-> ctx,
         nolog |-> TRUE, x |-> [form |-> c.form], ref |-> st]
   ELSE
-    LET c == IF j >= NOps + NFil THEN [Specials[j - NOps - NFil + 1] EXCEPT !.a = @] @@ [body |-> <<PrintS(Pipe(A, Specials[j - NOps - NFil + 1].filter, <<NameE("p1"), NameE("p2")>>))>>]
+    LET c == IF j >= NOps + NFil + Len(Specials) THEN SpecialBodies[j - NOps - NFil - Len(Specials) + 1]
+             ELSE IF j >= NOps + NFil THEN [Specials[j - NOps - NFil + 1] EXCEPT !.a = @] @@ [body |-> <<PrintS(Pipe(A, Specials[j - NOps - NFil + 1].filter, <<NameE("p1"), NameE("p2")>>))>>]
              ELSE FCase(j - NOps)
         ctx == ("a" :> c.a) @@ [n \in {"p" \o ToString(q) : q \in 1..Len(c.args)} |->
                                    c.args[CHOOSE q \in 1..Len(c.args) : n = "p" \o ToString(q)]]
